@@ -566,6 +566,16 @@ func (c *Ctx) BvBin(op Op, x, y *Term) *Term {
 		if y.IsConst() && y.val == 1 {
 			return x
 		}
+		if op == OpUDiv && y.IsConst() && y.val&(y.val-1) == 0 && y.val != 0 {
+			return c.BvBin(OpLshr, x, c.BVConst(uint64(popcount(y.val-1)), w))
+		}
+	case OpURem, OpSRem:
+		if y.IsConst() && y.val == 1 {
+			return c.BVConst(0, w)
+		}
+		if op == OpURem && y.IsConst() && y.val&(y.val-1) == 0 && y.val != 0 {
+			return c.BvBin(OpBAnd, x, c.BVConst(y.val-1, w))
+		}
 	}
 	// push comparisons / arithmetic through ite with constant leaves (keeps table lookups small)
 	if (x.op == OpIte && y.IsConst() && iteConstLeaves(x, 6)) || (y.op == OpIte && x.IsConst() && iteConstLeaves(y, 6)) {
